@@ -124,7 +124,7 @@ Section Wit.
 
   (* ---- the earlier line() (variant false): what the repair removed ---- *)
   (* a value ending in a closing brace: the braces pass rejects the line *)
-  Lemma tags_trailing_brace : exists s m, to_map unquote s = Ok m /\ to_map unquote (line_v false quote m) = Err.
+  Lemma tags_trailing_brace : exists s m, to_map unquote s = Ok m /\ to_map unquote (line_v false false quote m) = Err.
   Proof.
     exists (A ++ EQ :: quote [x78; RBR]), [(A, [x78; RBR])]. split.
     - apply tag_accept_single; reflexivity.
@@ -132,7 +132,7 @@ Section Wit.
   Qed.
 
   (* a value with a leading blank: the line denotes the value without it *)
-  Lemma tags_edge_blank : exists s m m', to_map unquote s = Ok m /\ to_map unquote (line_v false quote m) = Ok m' /\ m' <> m.
+  Lemma tags_edge_blank : exists s m m', to_map unquote s = Ok m /\ to_map unquote (line_v false false quote m) = Ok m' /\ m' <> m.
   Proof.
     exists (A ++ EQ :: quote [SP; x78]), [(A, [SP; x78])], [(A, X)]. split; [|split].
     - apply tag_accept_single; reflexivity.
@@ -140,10 +140,19 @@ Section Wit.
     - discriminate.
   Qed.
 
+  (* a value holding a line feed: the line() before the line-break repair (nl = false) prints it raw -- the line is
+     accepted back (the C08 law holds), but it is two lines, which the LQL lexer does not take for one {tags} token *)
+  Definition V_NL : bytes := [x78; LF; x79].
+  Lemma tags_line_break_raw :
+    to_map unquote (A ++ EQ :: quote V_NL) = Ok [(A, V_NL)] /\
+    has LF (line_v true false quote [(A, V_NL)]) = true /\
+    to_map unquote (line_v true false quote [(A, V_NL)]) = Ok [(A, V_NL)].
+  Proof. split; [apply tag_accept_single; reflexivity|]. split; reflexivity. Qed.
+
   Hypothesis OF : OracleFacts quote unquote.
 
   (* a value that is itself a double-quoted / back-quoted literal: the line denotes the unquoted value *)
-  Lemma tags_leading_dquote : exists s m m', to_map unquote s = Ok m /\ to_map unquote (line_v false quote m) = Ok m' /\ m' <> m.
+  Lemma tags_leading_dquote : exists s m m', to_map unquote s = Ok m /\ to_map unquote (line_v false false quote m) = Ok m' /\ m' <> m.
   Proof.
     destruct OF as (_ & U1 & _).
     exists (A ++ EQ :: quote DQ_X), [(A, DQ_X)], [(A, X)]. split; [|split].
@@ -151,7 +160,7 @@ Section Wit.
     - unfold line_v, line_ord_v, to_map, to_pairs. cbn. fold DQ_X. rewrite U1. reflexivity.
     - discriminate.
   Qed.
-  Lemma tags_leading_backquote : exists s m m', to_map unquote s = Ok m /\ to_map unquote (line_v false quote m) = Ok m' /\ m' <> m.
+  Lemma tags_leading_backquote : exists s m m', to_map unquote s = Ok m /\ to_map unquote (line_v false false quote m) = Ok m' /\ m' <> m.
   Proof.
     destruct OF as (_ & _ & U2).
     exists (A ++ EQ :: quote BQ_X), [(A, BQ_X)], [(A, X)]. split; [|split].
@@ -162,7 +171,7 @@ Section Wit.
 
   (* the empty value and the value made of two double quotes are printed as the same line: printing is not injective *)
   Lemma tags_collision : exists s1 s2 m1 m2, to_map unquote s1 = Ok m1 /\ to_map unquote s2 = Ok m2 /\ m1 <> m2 /\
-    line_v false quote m1 = line_v false quote m2.
+    line_v false false quote m1 = line_v false false quote m2.
   Proof.
     destruct OF as (Q0 & _ & _).
     exists (A ++ EQ :: quote []), (A ++ EQ :: quote [QUOTE; QUOTE]), [(A, [])], [(A, [QUOTE; QUOTE])].
@@ -204,5 +213,18 @@ Section Wit.
     exists (quote DQ_X ++ EQ :: quote [x31]), (enc_fields [DQ_X; [x31]]), (DQ_X ++ [EQ; x31]), (enc_fields [X; [x31]]).
     split; [apply fld_accept_single; cbn; try lia; discriminate|]. split; [reflexivity|]. split; [|discriminate].
     unfold fields_of_kv_v. cbn. fold DQ_X. rewrite U1. reflexivity.
+  Qed.
+
+  (* ---- the pipe worker: a source tag value of 256 bytes -- field.Parse fails on the line, the error is dropped, the
+     copied events carry no provenance field at all ---- *)
+  Definition LONGV : bytes := repeat x78 256.
+  Lemma pipe_long_value_no_provenance :
+    to_map unquote (A ++ EQ :: LONGV) = Ok [(A, LONGV)] /\ tag_safe [(A, LONGV)] = true /\
+    to_map unquote (line quote [(A, LONGV)]) = Ok [(A, LONGV)] /\
+    forall own, pipe_fields quote unquote own [(A, LONGV)] = own.
+  Proof.
+    split; [vm_compute; reflexivity|]. split; [vm_compute; reflexivity|]. split; [vm_compute; reflexivity|].
+    intros own. unfold pipe_fields. replace (field_parse unquote (line quote [(A, LONGV)])) with (@nil byte) by (vm_compute; reflexivity).
+    apply app_nil_r.
   Qed.
 End Wit.
